@@ -144,10 +144,11 @@ Definition is_full (v : vec) : bool :=
   end.
 
 Definition vget (v : vec) (idx : nat) : option A :=
-  match root v with
-  | Some r => node_get (height v) r idx
-  | None => None
-  end.
+  if vlen v <=? idx then None
+  else match root v with
+       | Some r => node_get (height v) r idx
+       | None => None
+       end.
 
 Definition vset (v : vec) (idx : nat) (x : A) : option vec :=
   if vlen v <=? idx then None
@@ -394,12 +395,14 @@ Record slice : Type := mkSlice { svec : vec; sstart : nat; send : nat }.
 
 Definition snew : slice := mkSlice vnew 0 0.
 Definition slen (s : slice) : nat := send s - sstart s.
-Definition sget (s : slice) (idx : nat) : option A := vget (svec s) (sstart s + idx).
+Definition sget (s : slice) (idx : nat) : option A :=
+  if slen s <=? idx then None else vget (svec s) (sstart s + idx).
 Definition sset (s : slice) (idx : nat) (x : A) : option slice :=
-  match vset (svec s) (sstart s + idx) x with
-  | Some v => Some (mkSlice v (sstart s) (send s))
-  | None => None
-  end.
+  if slen s <=? idx then None
+  else match vset (svec s) (sstart s + idx) x with
+       | Some v => Some (mkSlice v (sstart s) (send s))
+       | None => None
+       end.
 Definition spush (s : slice) (x : A) : option slice :=
   match vtruncate (svec s) (send s) with
   | Some v => match vpush v x with
